@@ -217,3 +217,49 @@ def call_text(call, upper=False):
     name, args = call
     t = "(" + " ".join((name,) + tuple(args)) + ")"
     return t.upper() if upper else t
+
+
+# ---- multi-agent scenario (C15, C17) -----------------------------------------------------------------
+MA_DOMAIN = """(define (domain ma)
+(:requirements :typing :negative-preconditions :fluents)
+(:types agent item - object)
+(:predicates (free ?a - agent) (has ?a - agent ?i - item) (avail ?i - item) (locked ?i - item) (done ?a - agent))
+(:functions (cnt) (load ?a - agent))
+(:action take :parameters (?a - agent ?i - item)
+ :precondition (and (free ?a) (avail ?i) (not (locked ?i)))
+ :effect (and (not (free ?a)) (not (avail ?i)) (has ?a ?i) (increase (load ?a) 1)))
+(:action drop :parameters (?a - agent ?i - item)
+ :precondition (and (has ?a ?i))
+ :effect (and (free ?a) (avail ?i) (not (has ?a ?i)) (decrease (load ?a) 1)))
+(:action lock :parameters (?a - agent ?i - item)
+ :precondition (and (avail ?i))
+ :effect (and (not (avail ?i)) (locked ?i)))
+(:action peek :parameters (?a - agent ?i - item)
+ :precondition (and (avail ?i))
+ :effect (and (done ?a)))
+(:action work :parameters (?a - agent)
+ :precondition (and (free ?a))
+ :effect (and (done ?a) (increase (cnt) 1)))
+(:action rest :parameters (?a - agent)
+ :precondition (and (>= (load ?a) 0))
+ :effect (and (done ?a)))
+)
+"""
+MA_AGENTS = ["a1", "a2", "a3"]
+MA_ITEMS = ["i1", "i2"]
+
+
+def ma_problem_text(n_agents=2):
+    ags = MA_AGENTS[:n_agents]
+    init = [f"(free {a})" for a in ags] + [f"(avail {i})" for i in MA_ITEMS] + ["(= (cnt) 0)"] + [f"(= (load {a}) 0)" for a in ags]
+    return f"(define (problem map) (:domain ma) (:objects {' '.join(ags)} - agent {' '.join(MA_ITEMS)} - item) (:init {' '.join(init)}) (:goal (and (done {ags[0]}))))"
+
+
+def ma_calls(n_agents=2):
+    ags = MA_AGENTS[:n_agents]
+    out = []
+    for a in ags:
+        for i in MA_ITEMS:
+            out += [("take", (a, i)), ("drop", (a, i)), ("lock", (a, i)), ("peek", (a, i))]
+        out += [("work", (a,)), ("rest", (a,))]
+    return out
